@@ -226,7 +226,9 @@ def gen_c04(r, tier):
                 a['storage_fault']['enumerate'] = True
         ops.append(a)
     return {'config': {'clients': clients, 'tmp_dir_configured': True,
-                       'share_option_lists': r.chance(0.35)},
+                       'share_option_lists': r.chance(0.35),
+                       'default_encoding': r.weighted([(9, None),
+                                                       (1, 'cp1252')])},
             'ops': ops}
 
 
@@ -424,7 +426,10 @@ def gen_c10(r, tier):
         pos = r.randrange(len(ops) + 1)
         ops[pos:pos] = motif
     return {'config': {'clients': clients,
-                       'tmp_dir_configured': r.chance(0.7)}, 'ops': ops}
+                       'tmp_dir_configured': r.chance(0.7),
+                       'default_encoding': r.weighted([(9, None),
+                                                       (1, 'cp1252')])},
+            'ops': ops}
 
 
 def gen_c15(r, tier):
@@ -468,7 +473,10 @@ def gen_c15(r, tier):
                        'tmp_dir_configured': r.chance(0.75),
                        'tmp_dir_late': r.chance(0.25),
                        'share_option_lists': r.chance(0.3),
-                       'env_fail_dir': r.chance(0.2)}, 'ops': ops}
+                       'env_fail_dir': r.chance(0.2),
+                       'default_encoding': r.weighted([(9, None),
+                                                       (1, 'cp1252')])},
+            'ops': ops}
 
 
 def gen_plan(prop, r, tier, run):
@@ -938,7 +946,15 @@ def call_assert(ctx, op, rpaths, apaths):
                 o[k] = lst
     k = op['kind']
     refs = op.get('refs') or [op['ref']]
+    denc = None
+    if ctx.plan_config.get('default_encoding'):
+        # a process whose preferred text encoding is not UTF-8
+        from sim.defaultenc import DefaultEncoding
+        denc = DefaultEncoding(ctx.plan_config['default_encoding'],
+                               ctx.stats['faults'])
     try:
+        if denc:
+            denc.__enter__()
         if op['op'] == 'assert_string':
             inst.assertStringCorrect(op['actual'], refs[0], kind=k, **o)
         elif op['op'] == 'assert_textfile':
@@ -961,6 +977,9 @@ def call_assert(ctx, op, rpaths, apaths):
         if isinstance(e, (KeyboardInterrupt, SystemExit)):
             raise
         return 'error', e
+    finally:
+        if denc:
+            denc.__exit__(None, None, None)
 
 
 def exc_tag(e):
